@@ -4,9 +4,12 @@ from harness import ll_common as ll
 PROPERTY = "C02"
 STATEFUL = True
 READY = True
-THEOREMS = ["C02.sets_closed", "C02.sets_exact", "C02.fuel_enough", "C02.det_complete", "C02.fact_lang_eq", "C02.exact", "C02.reject_raises", "C02.smart_indep",
+THEOREMS = ["C02.sets_closed", "C02.sets_exact", "C02.fuel_enough", "C02.det_complete", "C02.fact_lang_eq", "C02.exact", "C02.reject_raises", "C02.exact_templates", "C02.smart_indep",
             "C02.conflict_report_exact", "C02.ll1_as_written_unambiguous"]
-RULE = ("one case = one generated grammar (generators as C01, more LL(1)-ish ones), constructed with "
+RULE = ("one case = one generated grammar (generators and dimensions as C01 - templates, argument kinds, several parser objects, "
+        "str / list-of-lines input - with more LL(1)-ish grammars; right-recursive LL(1) grammars on sentences and non-sentences of "
+        "150, 500 and 2000 tokens; every 50th accepted grammar is also used by two threads at once and each call must give the "
+        "sequential answer), constructed with "
         "smart_factorization True and False, each followed by every token string up to the tier's length plus "
         "sampled sentences (members) ; non-trivial = grammar accepted with is_ambiguous() False for at least one "
         "setting and at least one member and one non-member among the inputs; distinct by protocol text")
@@ -26,46 +29,67 @@ def impl(case):
     return ll.impl(case)
 
 
+def _judge(ctx):
+    if "check" not in ctx:
+        g, spec = ctx["g"], ctx["spec"]
+        ctx["check"] = ll.clean(spec) and not ll.left_rec(g)
+        # a key without alternatives derives nothing; 'LL(1) as written' is about grammars whose symbols have rules
+        ctx["ll1"] = ctx["check"] and all(len(v) > 0 for v in g.values()) and ll.is_ll1(g, ctx["start"])
+        ctx["unamb"] = ctx["amb"] == "ok amb=0"
+    return ctx
+
+
 def oracle(case, replies):
-    g = start = None
-    check = ll1 = False
-    unamb = False
-    for line, rep in zip(case["lines"], replies):
-        op = line.split()[0]
+    first_ok = None
+    for op, line, rep, ctx in ll.walk(case, replies):
+        if ctx is None:
+            continue
+        ctx = _judge(ctx)
+        g, start, smart = ctx["g"], ctx["start"], ctx["smart"]
         if op == "g":
-            spec, smart = ll.dec_g(line)
-            g, start = ll.user_grammar(spec), ll.start_of(spec)
-            check = ll.clean(spec) and not ll.left_rec(g)
-            # a key without alternatives derives nothing; 'LL(1) as written' is about grammars whose symbols have rules
-            ll1 = check and all(len(v) > 0 for v in g.values()) and ll.is_ll1(g, start)
-            unamb = rep == "ok amb=0"
-            if ll1 and rep != "ok amb=0":
+            if ctx["ll1"] and rep != "ok amb=0":
                 return "ll1-reported-ambiguous: predict sets of all alternatives are pairwise disjoint, constructor says %r (smart=%s)" % (rep, smart)
-        elif op == "amb" and check and ll1 and rep != "amb=0":
+            if ctx["ok"] and first_ok is None:
+                first_ok = ctx
+        elif op == "amb" and ctx["check"] and ctx["ll1"] and rep != "amb=0":
             return "ll1-reported-ambiguous-after-parsing: an LL(1) grammar is reported ambiguous once texts have been parsed (%s, smart=%s)" % (rep, smart)
-        elif op == "p" and check and unamb:
+        elif op in ("p", "pl") and ctx["check"] and ctx["unamb"]:
             text = ll.dec_p(line)
             toks = ll.expected_tokens(case, text)
-            member = ll.derives(g, start, [n for n, _ in toks])
+            if text in case.get("member", {}):
+                member = case["member"][text]          # long inputs: membership is known by construction
+            else:
+                member = ll.derives(g, start, [n for n, _ in toks])
             if rep.startswith("tree "):
                 if not member:
-                    return "accepts-non-sentence: %r is not in the language (smart=%s)" % (text, smart)
-                if ll1:
-                    msg = ll.check_tree(g, start, ll.read_sexp(rep[5:]), toks)
+                    return "accepts-non-sentence: %s is not in the language (smart=%s)" % (ll._short(text), smart)
+                if ctx["ll1"]:
+                    msg = ll.check_tree(g, start, ll.read_sexp(rep[5:]), toks, ctx["seqs"])
                     if msg:
-                        return "ll1-tree: %s (input %r)" % (msg, text)
+                        return "ll1-tree: %s (input %s)" % (msg, ll._short(text))
             elif rep == "err ParsingError":
                 if member:
-                    return "rejects-sentence: %r is in the language, is_ambiguous() is False (smart=%s)" % (text, smart)
+                    return "rejects-sentence: %s is in the language, is_ambiguous() is False (smart=%s)" % (ll._short(text), smart)
             else:
-                return "non-sentence-raises: %s instead of ParsingError on %r" % (rep[:60], text)
+                return "non-sentence-raises: %s instead of ParsingError on %s" % (rep[:60], ll._short(text))
+    if case.get("meta", {}).get("threads") and first_ok is not None:
+        texts = [ll.dec_p(l) for l in case["lines"] if l.split()[0] == "p"][:40:5]
+        if texts:
+            msg = ll.thread_check(first_ok["spec"], first_ok["smart"], texts)
+            if msg:
+                return "threads: " + msg
     return None
 
 
 def gen_cases(rng, tier):
     diags = ("nullables", "first", "follow", "table")
+    yield from ll.gen_long_cases(rng, (150, 500, 2000))
     if tier == "quick":
-        yield from ll.gen_ll_cases(rng, 1200, 4, sentences=30, ll1_share=0.45, diags=diags)
+        for i, c in enumerate(ll.gen_ll_cases(rng, 1100, 4, sentences=30, ll1_share=0.45, diags=diags)):
+            if i % 50 == 0 and c["meta"].get("ref") == "ok":
+                c["meta"]["threads"] = 1      # a small stream: two threads on one parser object, judged by the oracle
+            yield c
+        return
     else:
         yield from ll.gen_ll_cases(rng, 12000, 5, sentences=40, extra_long=10, ll1_share=0.45, diags=diags)
         yield from ll.tiny_grammars(rng, limit=20000)
